@@ -194,6 +194,23 @@ def search(run, info):
                 kinds.append(("T" if x.kind == "type" else "P", x.name.lower()))
             kinds.append(("T" if d.kind == "type" else "P", nm.lower()))
             dup_meta.append((len(cases) - 1, kinds))
+    # a whole file given twice: under another name, as it is or written again (other letter case, other layout), next to it or with
+    # an unrelated file between; and one declaration copied unchanged into a file of its own: every name is declared twice
+    for _ in range(30 if run.tier == "quick" else 300):
+        u = gen_sem.gen_valid(rng)
+        base = gen_sem.render(u)
+        again = "\n".join((ln.swapcase() if "'" not in ln and '"' not in ln else ln) + ("  " if rng.random() < 0.3 else "")
+                          for ln in base.split("\n")) if rng.random() < 0.6 else base
+        other = gen_sem.render(gen_sem.gen_valid(rng)) if rng.random() < 0.5 else None
+        sets = [("file-twice", [("a.st", base), ("b.st", again)]), ("file-twice-reversed", [("b.st", again), ("a.st", base)])]
+        if other is not None:
+            sets.append(("file-twice-apart", [("a.st", base), ("m.st", other), ("z.st", again)]))
+        d = rng.choice([x for x in u if x.kind in ("fb", "function", "program", "type")] or [u[0]])
+        sets.append(("declaration-copied", [("a.st", base), ("b.st", d.text())]))
+        for layout, fl in sets:
+            meta.append(("DUP", "every declaration of a file declared again by a copy of it" if layout != "declaration-copied"
+                         else "a declaration (%s) copied unchanged into another file" % d.name, fl, layout))
+            cases.append({"id": len(cases), "op": "project", "files": [[n, hexs(t)] for n, t in fl]})
     res = vlib.run_impl(cases, wd, per_case_timeout=30)
     # the scope walk of the declared-variable rule against its Coq model, on a sample of the file sets
     step = max(1, len(cases) // (400 if run.tier == "quick" else 4000))
